@@ -1,5 +1,5 @@
 #!/venv/bin/python
-"""tools/seeded.py [ID ...] [--also ID,ID] [--tests]
+"""tools/seeded.py [ID ...] [--also ID,ID] [--variants C,D] [--tests]
 
 For every seeded change /verif/seeded/<ID>/<variant>.diff (written by a fresh
 sub-agent that saw only the property text, see DESIGN.md): apply it to /repo's
@@ -30,6 +30,11 @@ def main():
         i = args.index("--also")
         also = args[i + 1].split(",")
         del args[i:i + 2]
+    only = None
+    if "--variants" in args:
+        i = args.index("--variants")
+        only = args[i + 1].split(",")
+        del args[i:i + 2]
     ids = [a for a in args if not a.startswith("--")] or sorted(
         os.path.basename(d) for d in glob.glob(f"{ROOT}/C*"))
     try:
@@ -41,6 +46,8 @@ def main():
     for pid in ids:
         for diff in sorted(glob.glob(f"{ROOT}/{pid}/*.diff")):
             variant = os.path.basename(diff)[:-5]
+            if only and variant not in only:
+                continue
             key = f"{pid}/{variant}"
             rec = {"checks": {}}
             r = sh(f"git -C /repo apply --check {diff}")
